@@ -476,6 +476,36 @@ def run_case(cid, rng, workdir):
                           "from the output of the same run into an empty directory (%d bytes)" % (len(ref_bytes), len(b2)), w0)
             if sorted(after) != sorted({fname, "other.txt"} | ({"#%s.1#" % fname} if prog != "gen_seq" else set())):
                 violation(res, "%s:stray-files-after-success" % prog, "directory after success: %s" % sorted(after), w0)
+            # a relative output path, given from a working directory that is not the directory of the inputs: the file
+            # (and the backup of what was there) appear in the working directory
+            d5 = fresh_outdir(workdir, fname, "relout")
+            here5 = os.getcwd()
+            os.chdir(d5)
+            reset_state(os.path.join(d5, fname))
+            seeded()
+            raised5 = None
+            try:
+                runner(Path(fname))
+            except Exception as e5:          # noqa
+                if type(e5).__name__ == "CaseTimeout":
+                    os.chdir(here5)
+                    raise
+                raised5 = e5
+            finally:
+                os.chdir(here5)
+            if raised5 is not None:
+                try:
+                    DeferredFileWriter().close()
+                except Exception:
+                    pass
+            bump(res, "runs_with_a_relative_output_path")
+            after5 = fs_snapshot(d5)
+            b5 = open(os.path.join(d5, fname), "rb").read() if fname in after5 and os.path.isfile(os.path.join(d5, fname)) else b""
+            if raised5 is not None or ref_bytes.split(b"\n", 1)[-1] != b5.split(b"\n", 1)[-1] or \
+                    (prog != "gen_seq" and "#%s.1#" % fname not in after5):
+                violation(res, "%s:relative-output-path-not-honoured" % prog, "run with the output given as %r from the working directory "
+                          "%s: %s; the directory holds %s" % (fname, "relout", "raised %r" % raised5 if raised5 is not None else
+                                                             "output missing or different (%d bytes)" % len(b5), sorted(after5)), w0)
             if prog != "gen_seq":
                 # an output path inside a directory that does not exist: the run cannot put its file there, so it fails;
                 # it must not create the directory, and must not leave anything behind in the working directory
